@@ -1339,6 +1339,12 @@ def oracle(sim: Sim, plan: dict) -> list[dict]:
                 running[c] = None
             if d["how"] != "return":
                 raised.setdefault(c, []).append(d["exc"])
+                if isinstance(d["exc"], str) and d["exc"].startswith("other:RuntimeError"):
+                    # the callback did not raise this itself: something it is allowed to do
+                    # while its context is being torn down (register a callback, publish a
+                    # resource with one, look something up) was refused
+                    v("C01.once", "registration_refused_in_teardown", f"callback {cb} of {c} failed with {d['exc']}: an operation that is allowed during teardown was refused")
+                    v("C13.allowed", "refused_in_teardown", f"callback {cb} of {c} failed with {d['exc']}: an operation that is allowed during teardown was refused")
 
     for c, ev in ctx_ev.items():
         if "ctx_exit" not in ev:
@@ -1799,6 +1805,10 @@ def gen_c12(g: G) -> dict:
             elif r < 0.12 and depth >= 1 and g.nctx < 10:
                 g.nctx += 1
                 out.append(["tfcrash", {"cid": f"x{g.nctx}", "gap": [rng.choice((0, 1)), rng.choice((0.0, 0.25))]}])
+            elif r < 0.15 and depth >= 1:
+                g.ncb += 1
+                out.append(["bglookup", {"id": f"q{g.ncb}", "dur": rng.choice((0.5, 1.0, 3.0)), "gap": [rng.choice((1, 2)), rng.choice((0.0, 0.25))]}])
+                use_bg[0] = True
             elif r < 0.3:
                 out.append(rpause(rng))
             elif r < 0.6 and depth < 4 and g.nctx < 10:
@@ -1871,7 +1881,7 @@ def gen_c12(g: G) -> dict:
         out["bg"] = True
     if rng.random() < 0.25:
         out["outsider"] = [rpause(rng, 0.2) for _ in range(rng.randint(2, 6))]
-    if rng.random() < 0.3:
+    if rng.random() < (0.6 if "bglookup" in str(root) else 0.3):
         out["cancel"] = {"frac": round(rng.random(), 4)}
     return out
 
